@@ -63,3 +63,122 @@ def step (st : St) (toks : List String) (impl : String) : St × LineResult :=
 def component : Component := { σ := St, init := {}, step := step }
 
 end Bng.Drv.NexusDrv
+
+/-
+  bngdrv component `nexusclient`: the real nexus.Client over an in-memory store.
+
+    new                          => ok
+    pool p1 <basehex> <ones>     => ok            (the pool record is written: created or EDITED)
+    isp i1 p2 | isp i1 -         => ok            (ISP record with IPv4Pools [p2] / none)
+    sub s3 p1 i1 | sub s3 - i1 | sub s3 p1 - | sub s3 - -   => ok   (subscriber record provisioned, no address)
+    alloc s3                     => ok <hex> | nosub | nopool | nopoolrec | nohosts
+    release s3                   => ok | nosub
+    lookup s3                    => <hex> | none
+
+  Monitor: the generic pool monitor, with the range of an assignment judged against the pool record the
+  address was computed from (a holder that asks again keeps its address even if the record was edited).
+-/
+namespace Bng.Drv.NexusClientDrv
+open Bng Bng.Drv Bng.NexusHash
+
+structure St where
+  model : Option Client.State := none
+  mon : PoolSpec.Mon := []
+  /-- subscriber ↦ (pool record its address was computed from, hash of its id) -/
+  origin : AMap Nat (Cfg × Nat) := []
+
+def showObs : Client.Obs → String
+  | .okAddr a => s!"ok {toHex a}"
+  | .ok => "ok"
+  | .nosub => "nosub"
+  | .nopool => "nopool"
+  | .nopoolrec => "nopoolrec"
+  | .nohosts => "nohosts"
+  | .none => "none"
+
+def parseOpt (tag : Char) (t : String) : Option (Option Nat) :=
+  if t == "-" then some none else (parseTagged tag t).map some
+
+def parseOp (toks : List String) : Option Client.Op :=
+  match toks with
+  | ["pool", p, b, o] => do
+      let p ← parseTagged 'p' p; let b ← parseHex b; let o ← o.toNat?; pure (.pool p { base := b, ones := o })
+  | ["isp", i, f] => do let i ← parseTagged 'i' i; let f ← parseOpt 'p' f; pure (.isp i f)
+  | ["sub", k, p, i] => do
+      let kk ← parseTagged 's' k; let p ← parseOpt 'p' p; let i ← parseOpt 'i' i
+      pure (.sub kk p i (fnv1a (NexusDrv.idBytes k)))
+  | ["alloc", k] => (parseTagged 's' k).map .alloc
+  | ["release", k] => (parseTagged 's' k).map .release
+  | ["lookup", k] => (parseTagged 's' k).map .lookup
+  | _ => none
+
+def geoOf (c : Cfg) : PoolSpec.Geo := { lo := c.net + 1, step := 1, units := c.numHosts, totalReported := 0 }
+
+/-- the pool record the model would compute a NEW address of subscriber k from -/
+def currentCfg (m : Client.State) (k : Nat) : Option Cfg :=
+  match AMap.lookup m.subs k with
+  | none => none
+  | some sub =>
+    let pid := match sub.pool with
+      | some p => some p
+      | none => match sub.isp with
+        | some i => (AMap.lookup m.isps i).join
+        | none => none
+    match pid with
+    | some p => AMap.lookup m.pools p
+    | none => none
+
+def step (st : St) (toks : List String) (impl : String) : St × LineResult :=
+  match toks with
+  | ["new"] => ({ model := some Client.init }, { modelObs := "ok" })
+  | _ =>
+    match st.model, parseOp toks with
+    | some m, some op =>
+      let (m', o) := Client.step m op
+      let shown := match op, o with
+        | .lookup _, .okAddr a => toHex a
+        | _, _ => showObs o
+      let st' := { st with model := some m' }
+      match op, splitTokens impl with
+      | .alloc k, ["ok", a] =>
+        match parseHex a with
+        | some x =>
+          -- an address the subscriber already holds is judged against the record it came from
+          let (cfg?, h) := match AMap.lookup st.mon k, AMap.lookup st.origin k with
+            | some _, some (c, h) => (some c, h)
+            | _, _ => (currentCfg m k, match AMap.lookup m.subs k with | some sub => sub.hash | none => 0)
+          match cfg? with
+          | some c =>
+            let (mon', vs) := PoolSpec.check (geoOf c) st.mon (.got k x)
+            let clause := fun (v : String) =>
+              if v == "unique" then
+                match PoolSpec.holderOf (AMap.erase st.mon k) x with
+                | some k' => match AMap.lookup st.origin k' with
+                  -- same record: the two hashes fall on one host offset; records edited in between:
+                  -- both addresses are what the hash formula yields from the record each was computed from
+                  | some (c', h') =>
+                    if (c' == c && collide c h h') ||
+                       (addrOfHash c h == some x && addrOfHash c' h' == some x) then "D1-nexus-hash" else "none"
+                  | none => "none"
+                | none => "none"
+              else "none"
+            ({ st' with mon := mon', origin := AMap.insert st.origin k (c, h) },
+             { modelObs := shown, viols := vs.map fun (n, d) => (n, clause n, d) })
+          | none =>
+            ({ st' with mon := AMap.insert st.mon k x },
+             { modelObs := shown, viols := [("range", "none", s!"value {x} handed out although no pool record applies")] })
+        | none => (st', { modelObs := shown })
+      | .release k, ["ok"] => ({ st' with mon := AMap.erase st.mon k }, { modelObs := shown })
+      | .sub k _ _ _, ["ok"] => ({ st' with mon := AMap.erase st.mon k }, { modelObs := shown })
+      | .lookup k, [r] =>
+        let r' := if r == "none" then some none else (parseHex r).map some
+        let vs := match r' with
+          | some r => (PoolSpec.check (geoOf { base := 0, ones := 0 }) st.mon (.looked k r)).2
+          | none => []
+        (st', { modelObs := shown, viols := vs.map fun (n, d) => (n, "none", d) })
+      | _, _ => (st', { modelObs := shown })
+    | _, _ => (st, { modelObs := "badop" })
+
+def component : Component := { σ := St, init := {}, step := step }
+
+end Bng.Drv.NexusClientDrv
